@@ -178,7 +178,7 @@ def buildTokens (tokens : List PToken) (d : BState Float) (nocheck : Bool := fal
   | .fuelOut => .fuelOut
   | .ok r =>
     if nocheck then
-      -- store name `nocheck`: `build` without `validate_parse_tree` (the code before commit 467354e); analysis only
+      -- store name `nocheck`: `build` without `validate_parse_tree`; analysis only
       if r.nodes.isEmpty then .ok (some (pushInstr d .endExpression none none, 0))
       else Outcome.bind (buildCore parseFloatImpl (defaultFuel r.nodes.size) r.root r.nodes d) fun res => .ok (some res)
     else
